@@ -7,6 +7,7 @@ import Glb.Driver.Strutil
 import Glb.Driver.Fsutil
 import Glb.Driver.Config
 import Glb.Driver.Text
+import Glb.Driver.Quote
 import Glb.Driver.Relay
 import Glb.Driver.Progress
 import Glb.Driver.Files
@@ -31,6 +32,7 @@ def main (args : List String) : IO UInt32 := do
   | ["fsutil"] => loop stdin stdout () Fsutil.step; return 0
   | ["argv"] => loop stdin stdout ({} : Config.ArgvSt) Config.argvStep; return 0
   | ["text"] => loop stdin stdout () Text.step; return 0
+  | ["quote"] => loop stdin stdout () Quote.step; return 0
   | ["relay"] => loop stdin stdout () Relay.step; return 0
   | ["daemon"] => loop stdin stdout () Daemon.step; return 0
   | ["progress"] => loop stdin stdout () Progress.step; return 0
